@@ -190,7 +190,7 @@ func (e *Engine) verifyUnit(fn *ssa.Function, ct *FuncContract, alias []string, 
 		}
 	}
 	for k, at := range ct.Ats {
-		if !fr.atUsed()[k] {
+		if !fr.atUsed()[k] && !strings.HasSuffix(at.Site, "#*") {
 			e.fatalf("%s: site %q does not occur in %s", at.Clause.Src, at.Site, u.Name)
 		}
 	}
